@@ -76,6 +76,31 @@ chk("C20",
     "does not work on this backend (baseline failures) and is outside the claim, as the property states.",
     "Lean 4 proof (refinement to a finite map, invariant preservation) + differential correspondence on histories",
     "6/C20")
+SCHEME_TRUST = ("Trusted: Lean kernel + 3 standard axioms; leaves recorded and replayed (HMAC-SHA1, SHA-1, AES block function; assumed: AES block function "
+    "invertible on 16-byte blocks, nominal digest lengths); the recorder's patches of os.urandom / random.* / hmac.new / hashlib.new / AESxCBC; "
+    "the theorems' no-collision hypotheses on PRF/PRP outputs (evaluated by the driver on every recorded run, true except with negligible "
+    "probability); pickle/json not modelled; math.log2 modelled by exact integer logarithms. Schemes without a Lean model yet are covered only "
+    "by the direct oracle on the real code (listed in the evidence under schemes_modelled / schemes_with_theorem).")
+chk("C01",
+    "Per scheme a Lean model of config build, KeyGen, EDBSetup, TokenGen and Search over the C14-C16 wrapper models (Model/Schemes/*.lean) and a "
+    "theorem that once setup has returned an index, the token of EVERY stored keyword is generated and Search returns exactly its list - same "
+    "identifiers, same order, no exception, the probe loop terminates - for every configuration the config builder accepts, every key, every "
+    "database (no bound on keywords, list lengths, block sizes: the smallest database and every block/level/power-of-two boundary are instances) "
+    "and every randomness tape (Props/C01.lean; proved so far for PiBas and PiPack). Tie: recorded-oracle correspondence - the real scheme runs "
+    "under a recorder (leaves + randomness tape), the Lean driver replays them and must reproduce the key, the index cell by cell, every token "
+    "and every result - plus the direct oracle Search(EDBSetup(K,DB),TokenGen(K,w)) == DB[w] on the real code for all nine schemes over "
+    "boundary profiles.",
+    SCHEME_TRUST,
+    "Lean 4 proof (per-scheme soundness of search over every database and tape) + recorded-oracle differential correspondence + direct oracle on all nine schemes",
+    "6/C01")
+chk("C02",
+    "Props/C02.lean: for a keyword whose first probe label is not a stored label (every keyword outside the database unless the PRF collides), "
+    "Search completes normally with the empty result - no exception, no foreign or padding identifiers (proved so far for PiBas and PiPack). Tie: "
+    "the scheme correspondence with absent keywords adversarially close to stored ones (prefix, suffix, NUL-extended, one bit flipped) in every "
+    "case, plus the direct oracle on the real code for all nine schemes.",
+    SCHEME_TRUST,
+    "Lean 4 proof (per-scheme) + recorded-oracle differential correspondence + direct oracle on all nine schemes",
+    "6/C02")
 chk("C10",
     "The server program is EXTRACTED from frontend/server/** on every run (AST translator -> Generated/ServerIR.lean: guards and effects of the "
     "three handlers, the dispatch table, the constructor's load logic, close_service, the file-manager primitives, the manager's step order) and "
@@ -106,6 +131,24 @@ chk("C13",
     "(client_semantic_partial).",
     "Lean 4 proof over the extracted program (all crash prefixes x all consistent states) + exhaustive crash-point enumeration on the real code",
     "6/C13")
+chk("C11",
+    "The client program is EXTRACTED from frontend/client/** on every run (AST translator -> Generated/ClientIR.lean: the guard/effect list of each "
+    "of the six handlers, the two acknowledgement handlers, close_service, the flag masks, the table that overwrites the upload flags from the "
+    "server's reported state, the file-manager primitives) and Props/C11.lean proves about it, for EVERY history of user commands (no depth bound), "
+    "each run with a client object freshly loaded from disk as commands.py does: the interpreter refines an explicit 3-shape table (runCmd_world); "
+    "hence a command is accepted exactly when the 5-flag reference of frontend/README.md accepts it and the persisted flag word follows the reference; "
+    "a refused command leaves the client's folder and the server's durable state unchanged; a key file once written never changes; once the index "
+    "is uploaded every later search is answered by the index built under the key on disk with a token of that key, forever; an invalid configuration "
+    "changes nothing; no history yields a wrong result. Tie: translator + executing ALL command sequences up to length 3 (quick) / 4 (thorough) over "
+    "8 commands (valid / invalid-by-value / invalid-by-omission create, key, encrypt, upload config, upload index, search) plus random longer "
+    "histories with the REAL client Service against the REAL server over a loopback websocket, comparing outcome, flag word, key file content, index "
+    "presence and server state after every command; the reference is also evaluated directly on the real observations.",
+    "Trusted: Lean kernel + 3 standard axioms; the AST extractor's pattern table and the interpreter's reading of each IR op (validated by the "
+    "correspondence); the harness's mirror of commands.py (fresh Service per step, close_service in finally, process exit closes the socket); the "
+    "server as the reference machine (C10); keys/indexes/tokens as ids (scheme correctness is C01-C09); the alias registry (service_name_handler) is "
+    "not modelled.",
+    "Lean 4 proof (refinement of the extracted client program to a table, all histories) + exhaustive-to-depth differential correspondence",
+    "6/C11")
 chk("C12",
     "Unbounded theorems (Props/C12.lean) over a transition system of the connection manager in which the scheduler (event loop, clients, cleanup "
     "delay) may pick ANY enabled step - opening, lock acquisition, wake-up, sending, request processing, client close, end of the serve loop, "
